@@ -303,9 +303,24 @@ func TestInterceptorFecAfterMedia(t *testing.T) {
 			from := sink.Len()
 			for i := range media {
 				hdr := media[i].Header.Clone()
+				pay := append([]byte(nil), media[i].Payload...)
 				h.U(uint64(media[i].MarshalSize()))
-				if _, err := w.Write(&hdr, media[i].Payload, nil); err != nil {
+				if _, err := w.Write(&hdr, pay, nil); err != nil {
 					t.Fatalf("Write: %v", err)
+				}
+				// the sender owns header and payload again once Write has returned and reuses them for its next packet: the repair packets,
+				// computed at the end of the batch, must still protect what was written
+				for j := range hdr.CSRC {
+					hdr.CSRC[j] = ^hdr.CSRC[j]
+				}
+				for _, id := range hdr.GetExtensionIDs() {
+					ext := hdr.GetExtension(id)
+					for j := range ext {
+						ext[j] ^= 0xEE
+					}
+				}
+				for j := range pay {
+					pay[j] ^= 0x5A
 				}
 				calls := sink.Calls()
 				idx := from + i
